@@ -92,11 +92,12 @@ class Ctx:
         """an empty context of the same property (used to run a rule on its positive control)"""
         return Ctx(self.prop, self.tier, self.repo)
 
-    def borrowed(self, other_prop, prefix):
+    def borrowed(self, other_prop, prefix, only=None):
         """a view of this context for running the rule module of another property as a clause of this one: its
         obligations are recorded under `prefix` + original rule name, its floors / counters are kept apart, its
-        explanations are dropped.  Programs and the extraction cache are shared."""
-        return _Borrowed(self, other_prop, prefix)
+        explanations are dropped.  Programs and the extraction cache are shared.  `only(rule, instance)`: keep just the
+        obligations the borrower is about (a slice of the lender's rule)."""
+        return _Borrowed(self, other_prop, prefix, only)
 
     def assume(self, s):
         self.assumptions.append(s)
@@ -105,8 +106,9 @@ class Ctx:
 class _Borrowed:
     is_borrowed = True
 
-    def __init__(self, base, prop, prefix):
+    def __init__(self, base, prop, prefix, only=None):
         self._b = base
+        self._only = only
         self.prop = prop
         self.tier = base.tier
         self.repo = base.repo
@@ -130,6 +132,8 @@ class _Borrowed:
         return self._b.controls
 
     def ob(self, rule, instance, ok, detail="", where=None):
+        if self._only is not None and not self._only(rule, str(instance)):
+            return None
         if not ok:
             # a listed finding of the lending property is that property's business: the borrower takes the clause over
             # for everything else (a *new* violation of the clause still counts here)
@@ -146,13 +150,15 @@ class _Borrowed:
         self._b.count("%s%s" % (self._prefix, key), n)
 
     def floor(self, what, n, minimum):
-        self._b.floor("%s%s" % (self._prefix, what), n, minimum)
+        if self._only is None:
+            self._b.floor("%s%s" % (self._prefix, what), n, minimum)
 
     def need(self, cond, msg):
         self._b.need(cond, msg)
 
     def control(self, rule, fired):
-        self._b.control(self._prefix + rule, fired)
+        if self._only is None:
+            self._b.control(self._prefix + rule, fired)
 
     def sample(self, s):
         pass
@@ -166,8 +172,8 @@ class _Borrowed:
     def fresh(self):
         return Ctx(self.prop, self.tier, self.repo)
 
-    def borrowed(self, other_prop, prefix):
-        return _Borrowed(self._b, other_prop, self._prefix + prefix)
+    def borrowed(self, other_prop, prefix, only=None):
+        return _Borrowed(self._b, other_prop, self._prefix + prefix, only)
 
 
 def load_known():
